@@ -245,6 +245,7 @@ func regType[E any](et *etype[E]) {
 	typeRunners[et.name] = func(c TCase) pbt.Outcome { return runTyped(et, c) }
 	regHist(et)
 	regAlias(et)
+	regConc(et)
 	typeNames = append(typeNames, et.name)
 	typeSpecials[et.name] = len(et.specials)
 	sort.Strings(typeNames)
